@@ -2,6 +2,7 @@ import CatiiProofs.IIndexShift
 import CatiiProofs.IIndexWf
 import CatiiProofs.FromArray
 import CatiiProofs.Append
+import CatiiProofs.Filtered
 /-!
 # C06 — index operations track NumPy on the dense array over any history
 
@@ -9,10 +10,10 @@ import CatiiProofs.Append
 operation says what the operation does to that array.  **Partial**: the operations proved so
 far are `copy`, `shift_common()` / `shift_common(v)` (identity on the dense array, for any value
 — frequent, rare or absent), `append(other)` (concatenation, for any pair of common values and any
-row counts incl. 0, while the combined rows fit 32 bits) and construction from arrays (C01);
+row counts incl. 0, while the combined rows fit 32 bits), `filtered(mask, n)` (boolean row selection, any
+mask) and construction from arrays (C01);
 `history_partial` lifts them to arbitrary finite sequences against a NumPy-side specification
-(`specRun`).  The remaining operations of the property (update,
-filtered, sliced, slices1d, reindexed, collapsed, column_stack, the entry-wise set updates, the
+(`specRun`).  The remaining operations of the property (update, sliced, slices1d, reindexed, collapsed, column_stack, the entry-wise set updates, the
 forced queries) are modelled in `CatiiModel/IIndex.lean` statement by statement and are tied to
 the real code by the correspondence harness after **every** step of every generated history,
 with the NumPy reference semantics as the oracle on the real code; their refinement lemmas are
@@ -22,25 +23,31 @@ namespace Catii.C06
 open Catii.IIdx
 
 /-- operations covered by theorems so far -/
-inductive Op | copy | shift (v : Option Int) | append (other : IIndex)
+inductive Op | copy | shift (v : Option Int) | append (other : IIndex) | filtered (mask : List Bool) (newLength : Nat)
 
 def apply (i : IIndex) : Op → M IIndex
   | .copy => pure (IIdx.copy i)
   | .shift v => shiftCommon i v
   | .append o => IIdx.append i o
+  | .filtered mask n' => IIdx.filtered i mask n'
 
 def run : IIndex → List Op → M IIndex
   | i, [] => pure i
   | i, op :: ops => do run (← apply i op) ops
 
 /-- the NumPy side: a dense array is its row count and its cells; `copy` and `shift_common` are the
-identity, `append` is `numpy.concatenate` along the rows -/
+identity, `append` is `numpy.concatenate` along the rows, `filtered` is boolean row selection `a[mask]`
+(row `j` of the result is the row of `a` at the `(j+1)`-th `True` of the mask) -/
 abbrev Dense := Nat × (Nat → List Int → Int)
 
 def specStep (d : Dense) : Op → Dense
   | .copy => d
   | .shift _ => d
   | .append o => (d.1 + o.nrows, fun r hi => if r < d.1 then d.2 r hi else denseAt o (r - d.1) hi)
+  | .filtered mask _ => ((mask.filter id).length, fun j hi =>
+      match (List.range mask.length).find? (fun r => mask.getD r false && rankIn mask r == j) with
+      | some r => d.2 r hi
+      | none => 0)
 
 def specRun (d : Dense) (ops : List Op) : Dense := ops.foldl specStep d
 
@@ -49,6 +56,7 @@ combined row count fits the 32-bit row-id word -/
 def OpsOK (hiShape : List Nat) : Nat → List Op → Prop
   | _, [] => True
   | n, .append o :: ops => WF o ∧ o.shape.drop 1 = hiShape ∧ n + o.nrows ≤ 2^32 ∧ OpsOK hiShape (n + o.nrows) ops
+  | n, .filtered mask n' :: ops => mask.length = n ∧ n' = (mask.filter id).length ∧ OpsOK hiShape n' ops
   | n, _ :: ops => OpsOK hiShape n ops
 
 /-- an index *represents* a dense array -/
@@ -89,6 +97,29 @@ theorem step_refines (i : IIndex) (hiShape : List Nat) (d : Dense) (h : Represen
       rw [← this]
       congr 1
       omega
+  | filtered mask n' =>
+    obtain ⟨hlen, hn', _⟩ := hok
+    have ok : FilterOK i mask n' := ⟨hw, by rw [hn]; exact hlen, hn'⟩
+    obtain ⟨hw', hs', hd'⟩ := filtered_refines ok hnd' r hr
+    refine ⟨hw', by rw [hs', hdrop, hn']; rfl, fun j hj hi hhi => ?_⟩
+    have hj' : j < (mask.filter id).length := hj
+    obtain ⟨r0, hr0, hm0, hrank⟩ := rankIn_surj mask j hj'
+    show denseAt r j hi = (match (List.range mask.length).find? (fun r => mask.getD r false && rankIn mask r == j) with
+      | some r => d.2 r hi
+      | none => 0)
+    cases hf : (List.range mask.length).find? (fun r => mask.getD r false && rankIn mask r == j) with
+    | none =>
+      have := List.find?_eq_none.mp hf r0 (List.mem_range.mpr hr0)
+      rw [hm0, hrank] at this
+      simp at this
+    | some r1 =>
+      have hp := List.find?_some hf
+      simp only [Bool.and_eq_true, beq_iff_eq] at hp
+      have : r1 = r0 := rankIn_inj mask r1 r0 hp.1 hm0 (by rw [hp.2, hrank])
+      subst this
+      simp only
+      rw [← hrank, hd' r1 hm0 hi (by rw [hdrop]; exact hhi)]
+      exact hd r1 (by rw [← hlen]; exact hr0) hi hhi
 
 /-- **any finite history** of the covered operations: the index reached represents the array NumPy reaches -/
 theorem history_partial (i : IIndex) (hiShape : List Nat) (d : Dense) (h : Represents i hiShape d)
@@ -110,12 +141,16 @@ theorem history_partial (i : IIndex) (hiShape : List Nat) (d : Dense) (h : Repre
         | copy => trivial
         | shift v => trivial
         | append o => exact ⟨hok.1, hok.2.1, hok.2.2.1, trivial⟩
+        | filtered mask n' => exact ⟨hok.1, hok.2.1, trivial⟩
       have hj := step_refines i hiShape d h hnd op hok1 j hs
       have hok2 : OpsOK hiShape (specStep d op).1 ops := by
         cases op with
         | copy => exact hok
         | shift v => exact hok
         | append o => exact hok.2.2.2
+        | filtered mask n' =>
+          show OpsOK hiShape (mask.filter id).length ops
+          rw [← hok.2.1]; exact hok.2.2
       exact ih j (specStep d op) hj hok2 hr
 
 /-- every well-formed index represents its own dense array -/
@@ -131,7 +166,8 @@ theorem represents_self (i : IIndex) (h : WF i) :
 /-! Non-vacuity -/
 example : WF ⟨[([1], [0, 2]), ([2], [1])], 0, [4]⟩ := wf_sound _ (by decide)
 example : (run ⟨[([1], [0, 2]), ([2], [1])], 0, [4]⟩
-    [.shift (some 1), .copy, .append ⟨[([0], [1])], 2, [3]⟩, .shift none]).isOk = true := by
+    [.shift (some 1), .copy, .append ⟨[([0], [1])], 2, [3]⟩, .filtered [true, false, true, true, false, true, true] 5,
+     .shift none]).isOk = true := by
   decide +kernel
 example : OpsOK [] 4 [.shift (some 1), .copy, .append ⟨[([0], [1])], 2, [3]⟩, .shift none] :=
   ⟨wf_sound _ (by decide), rfl, by decide, trivial⟩
